@@ -14,6 +14,7 @@ PAIRS=(
   "yggdrasil/user/verif_export_overlay.go=user_export.go"
   "server/internal/bvh/verif_export_overlay.go=bvh_export.go"
   "server/verif_bvh_export_overlay.go=server_bvh_export.go"
+  "level/block/verif_export_overlay.go=block_export.go"
 )
 # server/keepalive.go: the exported API has no handle on time (two unexported constants). A copy of the file as it
 # is in $REPO, with nothing but `const` -> `var` on those two declarations, replaces it for the build; the shim
